@@ -132,10 +132,30 @@ def check_fresh_defaults(ctx):
                 ctx.ob("default.fresh", fn, n.ast, True, "not a typed list/dict field (untyped Field: outside the property's domain; "
                        "ChallengeField: immutable tuple)", node=n, nontrivial=False)
                 continue
-            ok, why = True, "list/dict defaults reach the configuration only as a constructor result; the raw declared default only when it is not a container"
-            rd_raw = []
-            from engine.defuse import reaching_defs
-            rd = reaching_defs(fn)
+            # __setdefault__ specialised for "the declared default is a list (dict)": whatever can then be handed to
+            # _set_default_value has to be a newly built object (proxy, list(...), dict(...), a copy, a display)
+            from engine.specialize import Spec
+            want = "list" if "List" in fn.cls.name else "dict"
+
+            def is_declared(e, at, fn=fn):
+                if isinstance(e, ast.Attribute) and e.attr in ("default", "_default") and isinstance(e.value, ast.Name) and e.value.id == fn.self_name:
+                    return True
+                if isinstance(e, ast.Name):
+                    srcs = value_sources(fn, e, at)
+                    return bool(srcs) and all(k == "expr" and isinstance(pl, ast.Attribute) and is_declared(pl, None) for k, pl in srcs)
+                return False
+
+            def decide(e, node, ft=ft):
+                if isinstance(e, ast.Call) and isinstance(e.func, ast.Name) and e.func.id == "isinstance" and len(e.args) == 2 and is_declared(e.args[0], node):
+                    spec = ft.class_spec(e.args[1], {}) or []
+                    if spec:
+                        return want in spec or ("Mapping" in spec and want == "dict") or ("Sequence" in spec and want == "list")
+                if isinstance(e, ast.Compare) and len(e.ops) == 1 and is_declared(e.left, node) and isinstance(e.comparators[0], ast.Constant) \
+                        and e.comparators[0].value is None:
+                    return isinstance(e.ops[0], (ast.IsNot, ast.NotEq))
+                return None
+            sp = Spec(an, fn, decide)
+
             def fresh_leaf(v):
                 if isinstance(v, ast.Subscript) and isinstance(v.slice, ast.Slice) and v.slice.lower is None and v.slice.upper is None:
                     return True         # x[:]
@@ -147,69 +167,16 @@ def check_fresh_defaults(ctx):
                     tg = an.targets(fn, g.nodes_for(v)[0]) if g.nodes_for(v) else []
                     return bool(tg) and all(an.returns_fresh(t) for t in tg)
                 return False
-            for d in rd.reaching(n, arg.id) if isinstance(arg, ast.Name) else []:
-                if d.kind != "assign" or d.value is None:
-                    ok, why = False, "default has an untracked origin"
-                    continue
-                raw = False
-                for k, leaf in value_sources(fn, d.value, d.node):
+            ok, why = True, "a declared list/dict default reaches the configuration only as a newly built object"
+            if n in sp.normal:
+                for k, leaf in sp.sources(arg, n):
                     if k == "expr" and fresh_leaf(leaf):
                         continue
                     if k == "expr" and isinstance(leaf, ast.Call):
-                        ok, why = False, "default comes from %s, which does not build a new object" % ast.unparse(leaf)
-                        continue
-                    raw = True
-                if raw:
-                    rd_raw.append(d)
-            if not isinstance(arg, ast.Name):
-                ok, why = False, "default passed as %s" % ast.unparse(arg)
-            for d in rd_raw:
-                raw_ids = {id(leaf) for k, leaf in value_sources(fn, d.value, d.node) if k == "expr"}
-
-                def same_raw(x, at):
-                    """is the name tested the raw declared default (under whatever local name)?"""
-                    if not isinstance(x, ast.Name):
-                        return False
-                    if x.id == arg.id:
-                        return True
-                    ids = {id(leaf) for k, leaf in value_sources(fn, x, at) if k == "expr"}
-                    return bool(ids) and ids <= raw_ids
-
-                def not_container(e, lbl, at):
-                    if isinstance(e, ast.Call) and ast.unparse(e.func) == "isinstance" and len(e.args) == 2 and same_raw(e.args[0], at):
-                        spec = ft.class_spec(e.args[1], {}) or []
-                        want = "list" if "List" in fn.cls.name else "dict"
-                        return want in spec and lbl is False
-                    if isinstance(e, ast.Compare) and len(e.ops) == 1 and same_raw(e.left, at) and isinstance(e.comparators[0], ast.Constant) \
-                            and e.comparators[0].value is None:
-                        return (isinstance(e.ops[0], ast.IsNot) and lbl is False) or (isinstance(e.ops[0], ast.Is) and lbl is True)
-                    return False
-                # a guard clause: the raw default is only assigned where it is known not to be a container
-                if d.node is not None and any(not_container(t.ast, tr, t) for t, tr in dominating_guards(an, fn, d.node)):
-                    continue
-
-                def cut(a, b, lbl):
-                    if a.kind != "test":
-                        return True
-                    e = a.ast
-                    if not_container(e, lbl, a):
-                        return False
-                    if isinstance(e, ast.Call) and ast.unparse(e.func) == "isinstance" and isinstance(e.args[0], ast.Name) and e.args[0].id == arg.id:
-                        spec = ft.class_spec(e.args[1], {}) or []
-                        want = "list" if "List" in fn.cls.name else "dict"
-                        if want in spec and lbl is False:
-                            return False
-                    if isinstance(e, ast.Compare) and isinstance(e.left, ast.Name) and e.left.id == arg.id and isinstance(e.comparators[0], ast.Constant) \
-                            and e.comparators[0].value is None:
-                        if (isinstance(e.ops[0], ast.IsNot) and lbl is False) or (isinstance(e.ops[0], ast.Is) and lbl is True):
-                            return False
-                    return True
-                redefs = {x for x in g.nodes if x is not d.node and any(dd.name == arg.id for dd in rd.defs_at.get(x, []))}
-                p = g.path(d.node, lambda x: x is n, may_raise=lambda x: False, stop=lambda x: x in redefs, from_successors=True, edge_filter=cut)
-                if p is not None:
-                    ok, why = False, ("the declared default object itself can be stored in the configuration (path %s): every configuration of "
-                                      "the schema then shares one mutable %s" % (" -> ".join("%s@%s" % (x.kind, x.lineno) for x in p[:8]),
-                                                                                 "list" if "List" in fn.cls.name else "dict"))
+                        ok, why = False, "default comes from %s, which does not build a new object" % ast.unparse(leaf)[:60]
+                    else:
+                        ok, why = False, ("the declared default object itself (%s) can be stored in the configuration: every configuration of the "
+                                          "schema then shares one mutable %s" % (ast.unparse(leaf)[:40] if isinstance(leaf, ast.AST) else k, want))
             ctx.ob("default.fresh", fn, n.ast, ok, why, node=n)
     ctx.need(nsites >= 5, "fewer than 5 default stores found")
     # default stores outside the fields' own __setdefault__ (helpers such as reset_value): the declared default must not be
